@@ -29,7 +29,7 @@ Qed.
 Definition witness_in_S : script :=
   mkScr 8 [(1, KUnix); (2, KUnix); (3, KUnix)]
         [[AAdd 3; AAdd 2; AAdd 1; AWrite 1 5; AWrite 3 5]]
-        [mkT 1 5 (AWrite 2 7); mkT 2 7 (AShut 2)].
+        [mkT 1 5 (AWrite 2 7); mkT 2 7 (AShut 2)] false [].
 
 Lemma agree_example_in_S : in_S witness_in_S = true /\
   map (outcome (fst (runks BSelect witness_in_S 10))) [1; 2; 3] = map (outcome (fst (runks BPoll witness_in_S 10))) [1; 2; 3] /\
@@ -90,7 +90,7 @@ Proof.
   - destruct (cpopen (cx s y) && negb (ceof (cx s y))); sh_step H.
   - destruct (cpopen (cx s y)); [destruct (is_tcp (cx s y) && ceof (cx s y))|]; sh_step H.
   - destruct (cadded (cx s y) || Nat.eqb y 0); [sh_step H|].
-    set (c := mkC _ _ _ _ _ _ true _ _ _).
+    set (c := mkC _ _ _ _ _ _ true _ _ _ _).
     assert (H0 : shared (updc y c s) = shared (updc y c s')) by (apply sh_updc; auto).
     destruct (add_ctx_room y (updc y c s) R) as [O1 S1].
     destruct (add_ctx_room y (updc y c s') R') as [O2 S2].
@@ -101,7 +101,8 @@ Proof.
     rewrite (sh_cx _ _ HS). sh_step HS.
   - destruct (cclosed (cx s y)); [|destruct (negb (is_pipe (cx s y)))]; sh_step H.
   - assert (wk s = wk s') as -> by (unfold shared in H; inversion H; reflexivity). sh_step H.
-  - sh_step H.
+  - assert (wk s = wk s') as -> by (unfold shared in H; inversion H; reflexivity). sh_step H.
+  - destruct (can_reset (cx s y)); sh_step H.
 Qed.
 
 Fixpoint room_all (l : list action) (s : st) : Prop :=
@@ -122,7 +123,7 @@ Definition read_room (x : nat) (s : st) : Prop :=
        (emit (ERead x (cq c))
           (updc x (mkC (ckind c) 0 (ceof c) (cpopen c) (csht c)
                        (cflag c || (if is_pipe c then ceof c else ceof c || csht c))
-                       (cadded c) (cregok c) (cclosed c) (coff c + cq c)) s))).
+                       (cadded c) (cregok c) (cclosed c) (coff c + cq c) (crst c)) s))).
 
 Lemma cb_read_shared : forall x s s', shared s = shared s' -> read_room x s -> read_room x s' ->
   shared (cb_read x s) = shared (cb_read x s').
